@@ -1,14 +1,24 @@
 import BfeVerif.C17.Model
 /-!
-  C18 — model of condition primitives as wired in `buildPrimitive` (build.go): Fetcher ∘ Matcher of
-  `primitive.go`, for the host / port / path / query / header / cookie / method / tag / client-IP-range / VIP
-  families.  Core-only.  Strings are byte lists; `strings.ToUpper` is modelled on ASCII.
+  C18 — model of ALL condition primitives as wired in `buildPrimitive` (build.go): Fetcher ∘ Matcher of
+  `primitive.go`.  Core-only.  Strings are byte lists; `strings.ToUpper/ToLower` are modelled on ASCII.
 
-  `InMatcher` / `HostMatcher` (sort.Strings + sort.SearchStrings) are modelled as membership in the pattern
-  list; regexp and murmur3 primitives are not modelled here (external functions).
+  External functions are parameters (`Orc`): regexp (Compile ok / MatchString), the murmur3 bucket
+  `GetHash(value, HashMatcherBucketSize)`, and the `C17.Ext` functions (net.ParseIP, bfe_util.ParseTime,
+  fmt.Sscanf).  `sort.Strings` is modelled by insertion sort (the sorted list of distinct byte strings is unique)
+  and `sort.SearchStrings` by the actual binary search loop of package sort.
 -/
 namespace BfeVerif.C18
-open BfeVerif.C17 (Bytes splitOn upper bytesLt isV4)
+open BfeVerif.C17 (Bytes splitOn upper bytesLt isV4 Ext)
+
+structure Tls where
+  sni : Bytes
+  clientAuth : Bool
+  ca : Bytes
+
+structure Resp where
+  code : Bytes                           -- strconv.Itoa(StatusCode)
+  headers : List (Bytes × Bytes)
 
 structure Req where
   host : Bytes                          -- HttpRequest.Host
@@ -17,38 +27,102 @@ structure Req where
   query : List (Bytes × Bytes)          -- parsed query in order; `Values.Get` = first value of the key
   headers : List (Bytes × Bytes)        -- canonical key, first value
   cookies : List (Bytes × Bytes)        -- in order; the first cookie of a name wins
-  tags : List (Bytes × List Bytes)      -- Tags.TagTable
+  tags : List (Bytes × List Bytes)      -- Tags.TagTable (a map: the first entry of a key is the entry)
   cip : Option Bytes                    -- ClientAddr.IP.To16(), none if ClientAddr is nil
   vip : Option Bytes                    -- Session.Vip.To16(), none if nil
+  uri : Bytes := []                     -- HttpRequest.RequestURI
+  proto : Bytes := []                   -- HttpRequest.Proto
+  secure : Bool := false                -- Session.IsSecure
+  sesProto : Bytes := []                -- Session.Proto
+  tls : Option Tls := none              -- Session.TlsState
+  sip : Option Bytes := none            -- Session.RemoteAddr.IP.To16()
+  hostTag : Bytes := []                 -- Route.HostTag
+  trusted : Bool := false               -- Session.TrustSource()
+  resp : Option Resp := none            -- HttpResponse
+  ctx : Option (List (Bytes × Option Bytes)) := none   -- Context (none = nil map); value none = not a string
+  cipStr : Bytes := []                  -- ClientAddr.IP.String()
+
+structure Orc where
+  x : Ext
+  reMatch : Bytes → Bytes → Bool        -- regexp.MustCompile(p).MatchString(v)
+  bucket : Bytes → Nat                  -- GetHash([]byte(v), HashMatcherBucketSize)
 
 def assoc (k : Bytes) : List (Bytes × Bytes) → Option Bytes
   | [] => none
   | (a, v) :: rest => if a == k then some v else assoc k rest
 
 def upperIf (fold : Bool) (s : Bytes) : Bytes := if fold then upper s else s
+def lowerB (s : Bytes) : Bytes := s.map fun b => if 65 ≤ b && b ≤ 90 then b + 32 else b
 
-def isSuffixOf (p v : Bytes) : Bool := p.reverse.isPrefixOf v.reverse
+/-- `strings.HasPrefix`: `len(s) >= len(p) && s[:len(p)] == p` -/
+def hasPrefix (s p : Bytes) : Bool := decide (p.length ≤ s.length) && s.take p.length == p
+/-- `strings.HasSuffix`: `len(s) >= len(p) && s[len(s)-len(p):] == p` -/
+def hasSuffix (s p : Bytes) : Bool := decide (p.length ≤ s.length) && s.drop (s.length - p.length) == p
+/-- `strings.Contains` -/
+def containsB (s p : Bytes) : Bool :=
+  (List.range (s.length + 1)).any fun i => decide (i + p.length ≤ s.length) && (s.drop i).take p.length == p
 
-def tails : Bytes → List Bytes
-  | [] => [[]]
-  | c :: rest => (c :: rest) :: tails rest
+/-! ### sort.Strings / sort.SearchStrings -/
+def bytesLe (a b : Bytes) : Bool := !(bytesLt b a)
 
-def contains (v p : Bytes) : Bool := (tails v).any (fun t => p.isPrefixOf t)
+def insertSorted (x : Bytes) : List Bytes → List Bytes
+  | [] => [x]
+  | y :: ys => if bytesLe x y then x :: y :: ys else y :: insertSorted x ys
 
-/-! matchers (primitive.go) -/
-def inM (ps : Bytes) (fold : Bool) (v : Bytes) : Bool :=
-  ((splitOn 124 ps).map (upperIf fold)).contains (upperIf fold v)
+def sortStrings : List Bytes → List Bytes
+  | [] => []
+  | x :: xs => insertSorted x (sortStrings xs)
+
+/-- the loop of `sort.Search(n, func(h) bool { return a[h] >= x })` -/
+def searchLoop (a : List Bytes) (x : Bytes) : Nat → Nat → Nat → Nat
+  | 0, i, _ => i
+  | fuel + 1, i, j =>
+    if i < j then
+      let h := (i + j) / 2
+      if bytesLt (a.getD h []) x then searchLoop a x fuel (h + 1) j else searchLoop a x fuel i h
+    else i
+
+def searchStrings (a : List Bytes) (x : Bytes) : Nat := searchLoop a x (a.length + 1) 0 a.length
+
+/-- `in(v, patterns)`: `i := sort.SearchStrings(patterns, v); i < len(patterns) && patterns[i] == v` -/
+def inSorted (v : Bytes) (a : List Bytes) : Bool :=
+  let i := searchStrings a v
+  decide (i < a.length) && a.getD i [] == v
+
+/-! ### matchers (primitive.go) -/
+/-- NewInMatcher / InMatcher.Match, with the sort as a parameter -/
+def inMWith (sort : List Bytes → List Bytes) (ps : Bytes) (fold : Bool) (v : Bytes) : Bool :=
+  inSorted (upperIf fold v) (sort ((splitOn 124 ps).map (upperIf fold)))
+def inM := inMWith sortStrings
 def prefixM (ps : Bytes) (fold : Bool) (v : Bytes) : Bool :=
-  ((splitOn 124 ps).map (upperIf fold)).any (fun p => p.isPrefixOf (upperIf fold v))
+  ((splitOn 124 ps).map (upperIf fold)).any (fun p => hasPrefix (upperIf fold v) p)
 def suffixM (ps : Bytes) (fold : Bool) (v : Bytes) : Bool :=
-  ((splitOn 124 ps).map (upperIf fold)).any (fun p => isSuffixOf p (upperIf fold v))
+  ((splitOn 124 ps).map (upperIf fold)).any (fun p => hasSuffix (upperIf fold v) p)
 def containM (ps : Bytes) (fold : Bool) (v : Bytes) : Bool :=
-  ((splitOn 124 ps).map (upperIf fold)).any (fun p => contains (upperIf fold v) p)
-def addSlash (s : Bytes) : Bytes := if isSuffixOf [47] s then s else s ++ [47]
+  ((splitOn 124 ps).map (upperIf fold)).any (fun p => containsB (upperIf fold v) p)
+def addSlash (s : Bytes) : Bytes := if hasSuffix s [47] then s else s ++ [47]
 def pathElemM (ps : Bytes) (fold : Bool) (v : Bytes) : Bool :=
-  ((splitOn 124 ps).map (fun p => upperIf fold (addSlash p))).any (fun p => p.isPrefixOf (upperIf fold (addSlash v)))
+  ((splitOn 124 ps).map (fun p => upperIf fold (addSlash p))).any (fun p => hasPrefix (upperIf fold (addSlash v)) p)
+/-- ExactMatcher (req_proto_match): both sides upper-cased -/
+def exactM (p : Bytes) (v : Bytes) : Bool := upper v == upper p
 
-/-! fetchers -/
+/-- the sections of a hash bucket list (all valid), as (start, end) pairs -/
+def hashSections (p : Bytes) : Option (List (Nat × Nat)) := (splitOn 124 p).mapM C17.hashSection
+/-- HashValueMatcher: `buckets[GetHash(value)]` -/
+def hashM (o : Orc) (secs : List (Nat × Nat)) (insensitive : Bool) (v : Bytes) : Bool :=
+  let b := o.bucket (if insensitive then lowerB v else v)
+  secs.any fun se => decide (se.1 ≤ b) && decide (b ≤ se.2)
+
+def ipLe (a b : Bytes) : Bool := !(bytesLt b a)
+def ipRangeM (s e ip : Bytes) : Bool := ipLe s ip && ipLe ip e
+
+/-! ### fetchers -/
+inductive Fetched where
+  | err                     -- the fetcher returns an error: the primitive is false
+  | str (v : Bytes)
+  | nonstr                  -- a value that is not a string (nil interface …): every string matcher is false
+  deriving Repr
+
 /-- `strings.SplitN(Host, ":", 2)[0]` -/
 def hostOf (h : Bytes) : Bytes := h.takeWhile (· != 58)
 /-- `port := "80"; i := strings.Index(Host, ":"); if i > 0 { port = Host[i+1:] }` -/
@@ -56,17 +130,73 @@ def portOf (h : Bytes) : Bytes :=
   let i := (h.takeWhile (· != 58)).length
   if i < h.length ∧ i > 0 then h.drop (i + 1) else [56, 48]
 def queryGet (r : Req) (k : Bytes) : Bytes := (assoc k r.query).getD []
-def headerGet (r : Req) (k : Bytes) : Bytes := (assoc k r.headers).getD []
+def headerGet (hs : List (Bytes × Bytes)) (k : Bytes) : Bytes := (assoc k hs).getD []
+def tagsOf (r : Req) (k : Bytes) : Option (List Bytes) := (r.tags.find? (fun t => t.1 == k)).map (·.2)
+def uaKey : Bytes := [85, 115, 101, 114, 45, 65, 103, 101, 110, 116]            -- "User-Agent"
+def dtKey : Bytes := [88, 45, 66, 102, 101, 45, 68, 101, 98, 117, 103, 45, 84, 105, 109, 101]  -- "X-Bfe-Debug-Time"
+/-- req.Protocol() -/
+def protocolOf (r : Req) : Bytes := if r.secure then r.sesProto else r.proto
+def sniOf (r : Req) : Fetched :=
+  match r.secure, r.tls with
+  | true, some t => if t.sni.isEmpty then .err else .str t.sni
+  | _, _ => .err
+def caOf (r : Req) : Fetched :=
+  match r.secure, r.tls with
+  | true, some t => if !t.clientAuth || t.ca.isEmpty then .err else .str t.ca
+  | _, _ => .err
+def ctxOf (r : Req) (k : Bytes) : Fetched :=
+  match r.ctx with
+  | none => .err
+  | some m =>
+    if k.isEmpty then .err
+    else match m.find? (fun e => e.1 == k) with
+      | some (_, some v) => .str v
+      | _ => .nonstr
+/-- BfeTimeFetcher with the X-Bfe-Debug-Time header (without it the clock is read: not modelled) -/
+def timeOf (o : Orc) (r : Req) : Option Int :=
+  match assoc dtKey r.headers with
+  | some v => o.x.parseTime v
+  | none => none
 
-def ipLe (a b : Bytes) : Bool := !(bytesLt b a)
+def onStr (f : Fetched) (m : Bytes → Bool) : Bool :=
+  match f with
+  | .str v => m v
+  | _ => false
 
-/-- the condition built for `prim(a0[, a1][, fold])`, applied to a request; `pips` = net.ParseIP of the
-    IP patterns (oracle).  `none` = Build returns an error / primitive not modelled. -/
-def matchPrim (prim : String) (a0 a1 : Bytes) (fold : Bool) (pips : List (Option Bytes)) (r : Req) : Option Bool :=
+def ipFetch (ip : Option Bytes) (m : Bytes → Bool) : Bool :=
+  match ip with
+  | some a => m a
+  | none => false
+
+/-- seconds of the day of unix time `t` in the zone with offset `off` -/
+def clockSecs (t off : Int) : Int := (t + off) % 86400
+
+def mIpRange (o : Orc) (a0 a1 : Bytes) (ip : Option Bytes) : Option Bool :=
+  match o.x.parseIP a0, o.x.parseIP a1 with
+  | some s, some e =>
+    if isV4 s != isV4 e then none else if bytesLt e s then none else some (ipFetch ip (ipRangeM s e))
+  | _, _ => none
+def mRe (o : Orc) (p : Bytes) (f : Fetched) : Option Bool := if o.x.regexOk p then some (onStr f (o.reMatch p)) else none
+def mHash (o : Orc) (p : Bytes) (ins : Bool) (f : Fetched) : Option Bool :=
+  match hashSections p with
+  | some secs => some (onStr f (hashM o secs ins))
+  | none => none
+def cookieF (r : Req) (k : Bytes) : Fetched := match assoc k r.cookies with | some v => .str v | none => .err
+def rhdrF (r : Req) (k : Bytes) : Fetched := match r.resp with | some p => .str (headerGet p.headers k) | none => .err
+
+/-- the condition built for `prim(a0[, a1][, fold])`, applied to a request.
+    `none` = Build returns an error. -/
+def matchPrim (o : Orc) (prim : String) (a0 a1 : Bytes) (fold : Bool) (r : Req) : Option Bool :=
   match prim with
+  | "default_t" => some true
+  | "req_cip_trusted" => some r.trusted
+  | "req_proto_secure" => some r.secure
+  | "req_proto_match" => some (exactM a0 (protocolOf r))
   | "req_host_in" =>
     if (splitOn 124 a0).any (fun s => s.contains 58) then none else some (inM a0 true (hostOf r.host))
   | "req_host_suffix_in" => some (suffixM a0 true (hostOf r.host))
+  | "req_host_tag_in" => some (inM a0 true r.hostTag)
+  | "req_host_regmatch" => mRe o a0 (.str (hostOf r.host))
   | "req_port_in" => some (inM a0 false (portOf r.host))
   | "req_method_in" => some (inM a0 true r.method)
   | "req_path_in" => some (inM a0 fold r.path)
@@ -74,36 +204,72 @@ def matchPrim (prim : String) (a0 a1 : Bytes) (fold : Bool) (pips : List (Option
   | "req_path_suffix_in" => some (suffixM a0 fold r.path)
   | "req_path_contain" => some (containM a0 fold r.path)
   | "req_path_element_prefix_in" => some (pathElemM a0 fold r.path)
+  | "req_path_regmatch" => mRe o a0 (.str r.path)
+  | "req_url_regmatch" => mRe o a0 (.str r.uri)
+  | "req_ua_regmatch" => mRe o a0 (.str (headerGet r.headers uaKey))
+  | "req_query_exist" => some (!r.query.isEmpty)
   | "req_query_key_in" => some ((splitOn 124 a0).any (fun k => (assoc k r.query).isSome))
+  | "req_query_key_prefix_in" => some (r.query.any (fun kv => (splitOn 124 a0).any (fun p => hasPrefix kv.1 p)))
   | "req_query_value_in" => some (inM a1 fold (queryGet r a0))
   | "req_query_value_prefix_in" => some (prefixM a1 fold (queryGet r a0))
   | "req_query_value_suffix_in" => some (suffixM a1 fold (queryGet r a0))
   | "req_query_value_contain" => some (containM a1 fold (queryGet r a0))
-  | "req_header_key_in" => some ((splitOn 124 a0).any (fun k => headerGet r k != []))
-  | "req_header_value_in" => some (inM a1 fold (headerGet r a0))
-  | "req_header_value_prefix_in" => some (prefixM a1 fold (headerGet r a0))
-  | "req_header_value_suffix_in" => some (suffixM a1 fold (headerGet r a0))
-  | "req_header_value_contain" => some (containM a1 fold (headerGet r a0))
+  | "req_query_value_regmatch" => mRe o a1 (.str (queryGet r a0))
+  | "req_query_value_hash_in" => mHash o a1 fold (.str (queryGet r a0))
+  | "req_header_key_in" => some ((splitOn 124 a0).any (fun k => headerGet r.headers k != []))
+  | "req_header_value_in" => some (inM a1 fold (headerGet r.headers a0))
+  | "req_header_value_prefix_in" => some (prefixM a1 fold (headerGet r.headers a0))
+  | "req_header_value_suffix_in" => some (suffixM a1 fold (headerGet r.headers a0))
+  | "req_header_value_contain" => some (containM a1 fold (headerGet r.headers a0))
+  | "req_header_value_regmatch" => mRe o a1 (.str (headerGet r.headers a0))
+  | "req_header_value_hash_in" => mHash o a1 fold (.str (headerGet r.headers a0))
   | "req_cookie_key_in" => some ((splitOn 124 a0).any (fun k => (assoc k r.cookies).isSome))
-  | "req_cookie_value_in" => some (match assoc a0 r.cookies with | some v => inM a1 fold v | none => false)
-  | "req_cookie_value_prefix_in" => some (match assoc a0 r.cookies with | some v => prefixM a1 fold v | none => false)
+  | "req_cookie_value_in" => some (onStr (cookieF r a0) (inM a1 fold))
+  | "req_cookie_value_prefix_in" => some (onStr (cookieF r a0) (prefixM a1 fold))
+  | "req_cookie_value_suffix_in" => some (onStr (cookieF r a0) (suffixM a1 fold))
+  | "req_cookie_value_contain" => some (onStr (cookieF r a0) (containM a1 fold))
+  | "req_cookie_value_hash_in" => mHash o a1 fold (cookieF r a0)
   | "req_tag_match" =>
-    some (match r.tags.find? (fun t => t.1 == a0) with
-      | some t => t.2.any (fun tag => (splitOn 58 tag).head? == some a1)
+    some (match tagsOf r a0 with
+      | some ts => ts.any (fun tag => (splitOn 58 tag).head? == some a1)
       | none => false)
-  | "req_cip_range" =>
-    match pips with
-    | [some s, some e] =>
-      if isV4 s != isV4 e then none else if bytesLt e s then none
-      else some (match r.cip with | some ip => ipLe s ip && ipLe ip e | none => false)
-    | _ => none
+  | "req_context_value_in" => some (onStr (ctxOf r a0) (inM a1 fold))
+  | "req_cip_range" => mIpRange o a0 a1 r.cip
+  | "req_vip_range" => mIpRange o a0 a1 r.vip
+  | "ses_vip_range" => mIpRange o a0 a1 r.vip
+  | "ses_sip_range" => mIpRange o a0 a1 r.sip
+  | "req_cip_hash_in" => mHash o a0 false (match r.cip with | some _ => .str r.cipStr | none => .err)
   | "req_vip_in" =>
-    if pips.all (·.isSome) && !pips.isEmpty then
-      some (match r.vip with | some ip => pips.any (· == some ip) | none => false)
-    else none
+    let ps := (splitOn 124 a0).map o.x.parseIP
+    if ps.all (·.isSome) then some (ipFetch r.vip (fun ip => ps.any (· == some ip))) else none
+  | "res_code_in" => some (onStr (match r.resp with | some p => .str p.code | none => .err) (inM a0 false))
+  | "res_header_key_in" =>
+    some (match r.resp with
+      | some p => (splitOn 124 a0).any (fun k => headerGet p.headers k != [])
+      | none => false)
+  | "res_header_value_in" => some (onStr (rhdrF r a0) (inM a1 fold))
+  | "ses_tls_sni_in" => some (onStr (sniOf r) (inM a0 true))
+  | "ses_tls_client_auth" => some (match r.secure, r.tls with | true, some t => t.clientAuth | _, _ => false)
+  | "ses_tls_client_ca_in" => some (onStr (caOf r) (inM a0 false))
+  | "bfe_time_range" =>
+    match o.x.parseTime a0, o.x.parseTime a1 with
+    | some s, some e =>
+      if s > e then none
+      else some (match timeOf o r with | some t => decide (s ≤ t) && decide (t ≤ e) | none => false)
+    | _, _ => none
+  | "bfe_periodic_time_range" =>
+    -- a1 is the end time, the period argument (must be empty) is checked by the harness side of Build
+    match C17.parseTimeOfDay o.x a0, C17.parseTimeOfDay o.x a1 with
+    | some (some (s1, o1)), some (some (s2, o2)) =>
+      if s1 > s2 then none else if o1 != o2 then none
+      else some (match timeOf o r with
+        | some t => decide ((s1 : Int) ≤ clockSecs t o1) && decide (clockSecs t o1 ≤ (s2 : Int))
+        | none => false)
+    | _, _ => none
   | _ => none
 
-/-! ### Specification, written from docs/en_us/condition/request/*.md (independent of the matchers) -/
+/-! ### Specification, written from docs/en_us/condition/**/*.md (independent of the matchers):
+    every primitive is "the attribute exists and passes the documented test". -/
 def lower1 (b : UInt8) : UInt8 := if 65 ≤ b && b ≤ 90 then b + 32 else b
 /-- equal, ignoring ASCII case when `fold` -/
 def eqv (fold : Bool) : Bytes → Bytes → Bool
@@ -122,8 +288,8 @@ def specContain (ps : Bytes) (fold : Bool) (v : Bytes) : Bool :=
   (patterns ps).any (fun p => (List.range (v.length + 1)).any (fun i =>
     decide (i + p.length ≤ v.length) && eqv fold p ((v.drop i).take p.length)))
 /-- path element prefix: both sides get a trailing '/' when they lack one -/
+def norm (s : Bytes) : Bytes := if s.getLast? == some 47 then s else s ++ [47]
 def specPathElem (ps : Bytes) (fold : Bool) (v : Bytes) : Bool :=
-  let norm := fun (s : Bytes) => if s.getLast? == some 47 then s else s ++ [47]
   (patterns ps).any (fun p => decide ((norm p).length ≤ (norm v).length) && eqv fold (norm p) ((norm v).take (norm p).length))
 
 /-- host name and port of a Host header value: `name[:port]` or `[v6-literal][:port]` -/
@@ -137,12 +303,42 @@ def specHostPort (h : Bytes) : Bytes × Option Bytes :=
     let name := h.takeWhile (· != 58)
     (name, match h.dropWhile (· != 58) with | 58 :: p => some p | _ => none)
 
+/-- "attribute exists and satisfies the test" -/
+def attr (a : Option Bytes) (t : Bytes → Bool) : Bool :=
+  match a with
+  | some v => t v
+  | none => false
+
+def specHash (o : Orc) (p : Bytes) (ins : Bool) (a : Option Bytes) : Option Bool :=
+  match hashSections p with
+  | some secs => some (attr a fun v => secs.any fun se =>
+      decide (se.1 ≤ o.bucket (if ins then lowerB v else v)) && decide (o.bucket (if ins then lowerB v else v) ≤ se.2))
+  | none => none
+
+def specIpRange (o : Orc) (a0 a1 : Bytes) (ip : Option Bytes) : Option Bool :=
+  match o.x.parseIP a0, o.x.parseIP a1 with
+  | some s, some e =>
+    if isV4 s != isV4 e then none else if bytesLt e s then none
+    else some (attr ip fun a => !(bytesLt a s) && !(bytesLt e a))
+  | _, _ => none
+
+def specTls (r : Req) : Option Tls := if r.secure then r.tls else none
+
+def sRe (o : Orc) (p : Bytes) (a : Option Bytes) : Option Bool := if o.x.regexOk p then some (attr a (o.reMatch p)) else none
+def sRh (r : Req) (k : Bytes) : Option Bytes := match r.resp with | some p => assoc k p.headers | none => none
+
 /-- the documented meaning; a missing attribute makes the primitive false -/
-def specPrim (prim : String) (a0 a1 : Bytes) (fold : Bool) (pips : List (Option Bytes)) (r : Req) : Option Bool :=
+def specPrim (o : Orc) (prim : String) (a0 a1 : Bytes) (fold : Bool) (r : Req) : Option Bool :=
   match prim with
+  | "default_t" => some true
+  | "req_cip_trusted" => some r.trusted
+  | "req_proto_secure" => some r.secure
+  | "req_proto_match" => some (eqv true a0 (if r.secure then r.sesProto else r.proto))
   | "req_host_in" =>
     if (patterns a0).any (fun s => s.contains 58) then none else some (specIn a0 true (specHostPort r.host).1)
   | "req_host_suffix_in" => some (specSuffix a0 true (specHostPort r.host).1)
+  | "req_host_tag_in" => some (specIn a0 true r.hostTag)
+  | "req_host_regmatch" => sRe o a0 (some (specHostPort r.host).1)
   | "req_port_in" => some (specIn a0 false ((specHostPort r.host).2.getD [56, 48]))
   | "req_method_in" => some (specIn a0 true r.method)
   | "req_path_in" => some (specIn a0 fold r.path)
@@ -150,31 +346,72 @@ def specPrim (prim : String) (a0 a1 : Bytes) (fold : Bool) (pips : List (Option 
   | "req_path_suffix_in" => some (specSuffix a0 fold r.path)
   | "req_path_contain" => some (specContain a0 fold r.path)
   | "req_path_element_prefix_in" => some (specPathElem a0 fold r.path)
+  | "req_path_regmatch" => sRe o a0 (some r.path)
+  | "req_url_regmatch" => sRe o a0 (some r.uri)
+  | "req_ua_regmatch" => sRe o a0 (assoc uaKey r.headers)
+  | "req_query_exist" => some (r.query.length != 0)
   | "req_query_key_in" => some ((patterns a0).any (fun k => r.query.any (fun kv => kv.1 == k)))
-  | "req_query_value_in" => some (match assoc a0 r.query with | some v => specIn a1 fold v | none => false)
-  | "req_query_value_prefix_in" => some (match assoc a0 r.query with | some v => specPrefix a1 fold v | none => false)
-  | "req_query_value_suffix_in" => some (match assoc a0 r.query with | some v => specSuffix a1 fold v | none => false)
-  | "req_query_value_contain" => some (match assoc a0 r.query with | some v => specContain a1 fold v | none => false)
+  | "req_query_key_prefix_in" =>
+    some ((patterns a0).any (fun p => r.query.any (fun kv => decide (p.length ≤ kv.1.length) && kv.1.take p.length == p)))
+  | "req_query_value_in" => some (attr (assoc a0 r.query) (specIn a1 fold))
+  | "req_query_value_prefix_in" => some (attr (assoc a0 r.query) (specPrefix a1 fold))
+  | "req_query_value_suffix_in" => some (attr (assoc a0 r.query) (specSuffix a1 fold))
+  | "req_query_value_contain" => some (attr (assoc a0 r.query) (specContain a1 fold))
+  | "req_query_value_regmatch" => sRe o a1 (assoc a0 r.query)
+  | "req_query_value_hash_in" => specHash o a1 fold (assoc a0 r.query)
   | "req_header_key_in" => some ((patterns a0).any (fun k => r.headers.any (fun kv => kv.1 == k)))
-  | "req_header_value_in" => some (match assoc a0 r.headers with | some v => specIn a1 fold v | none => false)
-  | "req_header_value_prefix_in" => some (match assoc a0 r.headers with | some v => specPrefix a1 fold v | none => false)
-  | "req_header_value_suffix_in" => some (match assoc a0 r.headers with | some v => specSuffix a1 fold v | none => false)
-  | "req_header_value_contain" => some (match assoc a0 r.headers with | some v => specContain a1 fold v | none => false)
+  | "req_header_value_in" => some (attr (assoc a0 r.headers) (specIn a1 fold))
+  | "req_header_value_prefix_in" => some (attr (assoc a0 r.headers) (specPrefix a1 fold))
+  | "req_header_value_suffix_in" => some (attr (assoc a0 r.headers) (specSuffix a1 fold))
+  | "req_header_value_contain" => some (attr (assoc a0 r.headers) (specContain a1 fold))
+  | "req_header_value_regmatch" => sRe o a1 (assoc a0 r.headers)
+  | "req_header_value_hash_in" => specHash o a1 fold (assoc a0 r.headers)
   | "req_cookie_key_in" => some ((patterns a0).any (fun k => r.cookies.any (fun kv => kv.1 == k)))
-  | "req_cookie_value_in" => some (match assoc a0 r.cookies with | some v => specIn a1 fold v | none => false)
-  | "req_cookie_value_prefix_in" => some (match assoc a0 r.cookies with | some v => specPrefix a1 fold v | none => false)
+  | "req_cookie_value_in" => some (attr (assoc a0 r.cookies) (specIn a1 fold))
+  | "req_cookie_value_prefix_in" => some (attr (assoc a0 r.cookies) (specPrefix a1 fold))
+  | "req_cookie_value_suffix_in" => some (attr (assoc a0 r.cookies) (specSuffix a1 fold))
+  | "req_cookie_value_contain" => some (attr (assoc a0 r.cookies) (specContain a1 fold))
+  | "req_cookie_value_hash_in" => specHash o a1 fold (assoc a0 r.cookies)
   | "req_tag_match" =>
-    some (r.tags.any (fun t => t.1 == a0 && t.2.any (fun tag => tag.takeWhile (· != 58) == a1)))
-  | "req_cip_range" =>
-    match pips with
-    | [some s, some e] =>
-      if isV4 s != isV4 e then none else if bytesLt e s then none
-      else some (match r.cip with | some ip => !(bytesLt ip s) && !(bytesLt e ip) | none => false)
-    | _ => none
+    some (match tagsOf r a0 with
+      | some ts => ts.any (fun tag => tag.takeWhile (· != 58) == a1)
+      | none => false)
+  | "req_context_value_in" =>
+    some (match r.ctx with
+      | some m => !a0.isEmpty && (match m.find? (fun e => e.1 == a0) with
+          | some (_, some v) => specIn a1 fold v
+          | _ => false)
+      | none => false)
+  | "req_cip_range" => specIpRange o a0 a1 r.cip
+  | "req_vip_range" => specIpRange o a0 a1 r.vip
+  | "ses_vip_range" => specIpRange o a0 a1 r.vip
+  | "ses_sip_range" => specIpRange o a0 a1 r.sip
+  | "req_cip_hash_in" => specHash o a0 false (r.cip.map fun _ => r.cipStr)
   | "req_vip_in" =>
-    if pips.all (·.isSome) && !pips.isEmpty then
-      some (match r.vip with | some ip => pips.contains (some ip) | none => false)
-    else none
+    let ps := (patterns a0).map o.x.parseIP
+    if ps.all (·.isSome) then some (attr r.vip fun ip => ps.contains (some ip)) else none
+  | "res_code_in" => some (attr (r.resp.map (·.code)) (specIn a0 false))
+  | "res_header_key_in" => some (attr (r.resp.map fun _ => []) fun _ =>
+      (patterns a0).any (fun k => (r.resp.map (·.headers)).getD [] |>.any (fun kv => kv.1 == k)))
+  | "res_header_value_in" => some (attr (sRh r a0) (specIn a1 fold))
+  | "ses_tls_sni_in" => some (attr ((specTls r).bind fun t => if t.sni.isEmpty then none else some t.sni) (specIn a0 true))
+  | "ses_tls_client_auth" => some (match specTls r with | some t => t.clientAuth | none => false)
+  | "ses_tls_client_ca_in" =>
+    some (attr ((specTls r).bind fun t => if t.clientAuth && !t.ca.isEmpty then some t.ca else none) (specIn a0 false))
+  | "bfe_time_range" =>
+    match o.x.parseTime a0, o.x.parseTime a1 with
+    | some s, some e =>
+      if s > e then none
+      else some (match timeOf o r with | some t => decide (s ≤ t ∧ t ≤ e) | none => false)
+    | _, _ => none
+  | "bfe_periodic_time_range" =>
+    match C17.parseTimeOfDay o.x a0, C17.parseTimeOfDay o.x a1 with
+    | some (some (s1, o1)), some (some (s2, o2)) =>
+      if s1 > s2 then none else if o1 != o2 then none
+      else some (match timeOf o r with
+        | some t => decide ((s1 : Int) ≤ (t + o1) % 86400 ∧ (t + o1) % 86400 ≤ (s2 : Int))
+        | none => false)
+    | _, _ => none
   | _ => none
 
 end BfeVerif.C18
